@@ -319,6 +319,9 @@ def check_immediate_effect(rep, fl, rule="R02.5"):
 
 def check_C02(rep, fl):
     props_store.check_selectors(rep, fl)
+    # "replaces the value immediately and is never rolled back": a resident entry is written by the caller's own insert
+    # only, never later by a queued item
+    props_store.keep_sites(rep, fl, props_store.check_removal_inventory, ("*ShardedMap::try_update|callers", "*ShardedMap::try_insert|callers"))
     props_store.check_lookup_guards(rep, fl)
     check_value_writers(rep, fl)
     check_immediate_effect(rep, fl)
